@@ -497,7 +497,11 @@ def gen_pnpm(rnd):
             spec = rnd.choice(RANGES)
             key, _ = yaml_scalar(rnd, name) if not name.startswith('@') else (rnd.choice(["'" + name + "'", '"' + name + '"']), '')
             val, q = yaml_scalar(rnd, spec)
-            o.w(ind * depth + key + ':' + rnd.choice([' ', '  ']))
+            if rnd.random() < 0.12:
+                # the value on the line after its key (a scalar may start on the next line, indented deeper)
+                o.w(ind * depth + key + ':' + nl + ind * (depth + 1))
+            else:
+                o.w(ind * depth + key + ':' + rnd.choice([' ', '  ']))
             s = o.mark() + len(q)
             o.w(val)
             e = o.mark() - len(q)
@@ -588,7 +592,7 @@ def gen_workflow(rnd):
                 cls.add('gha-quoted-uses')
             if k < 0.6:
                 r = rnd.choice(REFS)
-                out.w(lead + uses_key + ':' + rnd.choice([' ', '  ']) + q + a + sub + '@')
+                out.w(lead + uses_key + ':' + (rnd.choice([' ', '  ']) if rnd.random() < 0.9 else nl + cont + ind) + q + a + sub + '@')
                 s = out.mark()
                 out.w(r)
                 e = out.mark()
